@@ -777,34 +777,49 @@ def run(tier, seed, build):
     lattice = mc_lattice(tier)
 
     # 1. bounded models: code-as-is (deviations on, edges emitted) and literal property (deviations off)
+    # per bounded model: "graph" = code as is, edges printed, safety only (liveness checking re-evaluates and
+    # re-prints every transition several times); "on" = code as is, all properties; "off" = literal property.
+    # The tiny linear models do graph and "on" in one run.
     def mc_one(job):
-        k, kf = job
+        k, kind = job
         name, s, env, dim, resid, lsn, emit, cap = lattice[k]
-        return fix_counts(run_tlc("c09-mc%d%s" % (k, "on" if kf else "off"), "MC_NewtonRaphson",
-                                  mc_cfg(s, kf, kf, env, dim, resid, lsn, emit and kf),
-                                  workers=(1 if env == "linear" else 4), timeout=3000))
+        kf = kind != "off"
+        lin = env == "linear"
+        res = fix_counts(run_tlc("c09-mc%d%s" % (k, kind), "MC_NewtonRaphson",
+                                 mc_cfg(s, kf, kf, env, dim, resid, lsn, emit=(kind == "graph" or (lin and kf)),
+                                        live=(kind != "graph")),
+                                 workers=(1 if lin else 4), timeout=3000))
+        if res.ok and emit and (kind == "graph" or (lin and kf)):
+            res.graph = graph_from(res.out)         # parsed here (while other TLC runs are busy); the text is dropped
+            res.out = res.out[-4000:]
+        return res
 
     t0 = time.time()
-    jobs = [(k, kf) for k in range(len(lattice)) for kf in (True, False)]
+    jobs = []
+    for k, (name, s, env, dim, resid, lsn, emit, cap) in enumerate(lattice):
+        jobs += [(k, "on"), (k, "off")] + ([(k, "graph")] if emit and env != "linear" else [])
     jobs.sort(key=lambda j: lattice[j[0]][2] == "linear")        # long jobs first
     with cf.ThreadPoolExecutor(max_workers=8) as ex:
         done = dict(zip(jobs, ex.map(mc_one, jobs)))
-    mcres = [(done[(k, True)], done[(k, False)]) for k in range(len(lattice))]
+    mcres = [(done[(k, "on")], done[(k, "off")], done.get((k, "graph"), done[(k, "on")])) for k in range(len(lattice))]
     seen_actions = collections.Counter()
     sig_reached = collections.Counter()
     groups = []           # direction A: (settings, runs)
     info = {}             # run id -> description
     rid = 0
     edges_total = edges_covered = 0
-    for (name, s, env, dim, resid, lsn, emit, cap), (on, off) in zip(lattice, mcres):
+    for (name, s, env, dim, resid, lsn, emit, cap), (on, off, gr) in zip(lattice, mcres):
         rep.add_tlc("MC_NewtonRaphson[%s, code as is]" % name, on)
         rep.add_tlc("MC_NewtonRaphson[%s, literal]" % name, off)
-        for res, what in ((on, "deviations on"), (off, "deviations off")):
+        for res, what in ((on, "deviations on"), (off, "deviations off"), (gr, "graph")):
             if not res.ok:
                 rep.machinery("TLC on MC_NewtonRaphson[%s, %s] failed: %s" % (name, what, res.errors() or res.out[-1500:]))
-        if not (on.ok and emit):
+        if not (on.ok and gr.ok and emit):
             continue
-        root, edges, nodes, ends = graph_from(on.out)
+        if gr.distinct != on.distinct:
+            rep.machinery("graph run of %s found %d states, property run %d" % (name, gr.distinct, on.distinct))
+        on = gr
+        root, edges, nodes, ends = on.graph
         for incs_end in ends.values():
             if incs_end and incs_end[-1] != 1 and abs(incs_end[-1] - 1) < Fraction(1, 1000):
                 sig_reached[KF1] += 1
@@ -851,8 +866,8 @@ def run(tier, seed, build):
         sim = fix_counts(run_tlc("c09-sim", "MC_NewtonRaphson",
                                  mc_cfg(sdef, True, True, "scripted", 0, (0, 1, 2, 4, 6, 7, 8, 12), tuple(sorted(LS)),
                                         emit=False, live=False),
-                                 workers=8, simulate="num=300", args=["-depth", "100000", "-seed", str(seed)], timeout=1500))
-        rep.add_tlc("MC_NewtonRaphson[defaults, -simulate num=300]", sim)
+                                 workers=8, simulate="num=48", args=["-depth", "20000", "-seed", str(seed)], timeout=1500))
+        rep.add_tlc("MC_NewtonRaphson[defaults, -simulate num=48 -depth 20000]", sim)
         if not sim.ok:
             rep.machinery("TLC -simulate on the default settings failed: %s" % (sim.errors() or sim.out[-1500:]))
     t_mc = time.time() - t0
